@@ -54,7 +54,7 @@ SCOPE = {
              '(DataFrame or BED file) with loci placed at random and with the union window at -1, 0, +1 of both chromosome '
              'ends, chroms None or a subset, 0-3 signals, 0-2 in_signals, min/max counts at observed sums (incl. equality), '
              'target_idx, n_loci caps; every case with (FASTA, bigWig), (dict, dict) and one mixed form; read_meme: 600 '
-             'generated files + every combination of 5 separator layouts x 7 end-of-file layouts x LF/CRLF on 2-motif files',
+             'generated files + every combination of 6 separator layouts x 7 end-of-file layouts x LF/CRLF on 2-motif files',
     'thorough': 'extract_loci: 60 worlds x 100 cases, same generators; read_meme: 8000 generated files + the full layout grid on 1-, 2- and 3-motif files',
 }
 
@@ -643,19 +643,21 @@ def _report_meme(lim, spec, case, v):
     if not v:
         return
     explained = False
+    # a sub-file is attributed to a layout only if the same sub-file with the harmless layout passes
     if spec['eof'] in ('nl', 'nonl'):
         sub = dict(spec, motifs=[_small(spec['motifs'][-1], 'M1', None)])
         sc = _meme_case(sub)
         sv = check_meme(sc)
-        if sv:
+        if sv and not check_meme(_meme_case(dict(sub, eof='blank'))):
             lim.report(sv, sc, 'read_meme-last-motif-lost-when-file-ends-after-matrix')
             explained = True
     for k, m in enumerate(spec['motifs'][:-1]):
         if m['sep'] == 'none':
-            sub = dict(spec, motifs=[_small(m, 'M1', 'none'), _small(spec['motifs'][k + 1], 'M2', None)], eof='blank')
+            m2 = _small(spec['motifs'][k + 1], 'M2', None)
+            sub = dict(spec, motifs=[_small(m, 'M1', 'none'), m2], eof='blank')
             sc = _meme_case(sub)
             sv = check_meme(sc)
-            if sv:
+            if sv and not check_meme(_meme_case(dict(sub, motifs=[_small(m, 'M1', 'blank'), m2]))):
                 lim.report(sv, sc, 'read_meme-motif-lost-without-line-between-motifs')
                 explained = True
             break
